@@ -133,7 +133,7 @@ pub fn scenario_digest(seed: u64) -> u64 {
 pub fn run(p: &Params) -> Report {
     let mut rep = Report::new("C03");
     rep.rule = "cases = (state, set of transactions, proposer action): sets of 1-5 members under ALL permutations (every permutation on every rayon pool of 1/2/4/16 threads up to 4 members, on the 1-thread pool and a rotating second pool for 5), sets of up to 16 (thorough: 40) members under 10 (thorough: 24) random permutations; members independent, chained, DAG-shaped, with one invalid member, with a duplicate. All outcomes (accepted?, sealed header) must be equal, and equal to applying the members one at a time in dependency order; the block built from the outcome is applied to the parent 6 times with its HashSet rebuilt (fresh iteration order) and must give the same header every time; a seeded scenario is re-run in 2 fresh processes and must give the same digest. Non-trivial = set with >= 2 members; distinct by member hashes. The thorough tier repeats the workload under ThreadSanitizer".into();
-    let total = p.n(120, 3600);
+    let total = p.n(120, 4000);
     let mine = p.share(total);
     let mut rng = Rng::new(p.shard_seed() ^ 0xC03);
     let pools = make_pools();
